@@ -46,44 +46,33 @@ func (r CharRecipe) n() *big.Int {
 // Unfortunately, we can't take the log until the very end, so we will
 // be dealing with some very large numbers.
 func n(allowed set.Set, required set.Set, length int) *big.Int {
-	// totalCount is the total number of permutations possible when a
-	// password of length n is generated from the set R, which is the
-	// union of all sets in the password recipe.
+	// R is the union of all sets in the password recipe. A password of
+	// length n drawn from R is rejected when it misses at least one of the
+	// required sets. The required sets may overlap (or even be equal), so
+	// we count by inclusion-exclusion over the subsets of the required
+	// sets: the passwords that miss every set of a subset are exactly
+	// those drawn from R with all members of those sets removed.
+	// For example, if L and D are required, the count is
+	// |R|^n - |R-L|^n - |R-D|^n + |R-(L+D)|^n.
+	// Optional sets are not part of this at all because they are
+	// simply part of R.
 	R := unionAll(allowed.Union(required))
-	totalCount := &big.Int{}
-	totalCount.Exp(toBigInt(R.Cardinality()), toBigInt(length), nil) // #nosec G105
-
-	// Each of these sets of sets represents a password recipe that we
-	// will reject and thus must subtract from our total count.
-	// We want to reject all subsets of the set of required sets except
-	// the set of required sets itself.
-	// For example, if L and D are required, rejectedSubsets
-	// will contain {L} and {D} and will not contain {L, D}.
-	// Optional sets are not part of this at all because they will
-	// simply be tacked on at the end.
-	powerSet := required.PowerSet()
-	rejectedSubsets := set.NewSet()
-	for el := range powerSet.Iter() {
-		elSet, ok := el.(set.Set)
-		if ok && !required.Equal(elSet) {
-			rejectedSubsets.Add(elSet)
+	count := &big.Int{}
+	for el := range required.PowerSet().Iter() {
+		subset, ok := el.(set.Set)
+		if !ok {
+			continue
+		}
+		avoiding := R.Difference(unionAll(subset))
+		term := &big.Int{}
+		term.Exp(toBigInt(avoiding.Cardinality()), toBigInt(length), nil) // #nosec G105
+		if subset.Cardinality()%2 == 0 {
+			count.Add(count, term)
+		} else {
+			count.Sub(count, term)
 		}
 	}
-
-	// When requiredSets is {{}} (it is a set containing only the empty set),
-	// powerSet(requiredSets) will also be {{}};
-	// thus, rejectedSubsets will be empty, the reducing
-	// function below will not run, and rejectedCount will be 0,
-	// terminating the recursion.
-
-	rejectedCount := sumAll(
-		rejectedSubsets,
-		func(subset set.Set) *big.Int {
-			return n(allowed, subset, length)
-		},
-	)
-
-	return totalCount.Sub(totalCount, rejectedCount)
+	return count
 }
 
 func toBigInt(i int) *big.Int {
